@@ -33,6 +33,13 @@ def threshold_pool(kind='basic'):
                 for w in (nextafter(v, 0.0), nextafter(v, 2.0)):
                     if 0 < w <= 1:
                         s.add(w)
+    if kind != 'basic':
+        for q in range(2, 13):
+            for p in range(1, q + 1):
+                for d in (1e-5, 4e-5, -1e-5):
+                    w = round(p / float(q), 4) + d
+                    if 0 < w <= 1:
+                        s.add(w)
     if kind == 'dense':
         for k in range(1, 1000, 7):
             s.add(k / 1000.0)
@@ -42,6 +49,12 @@ def threshold_pool(kind='basic'):
 
 
 def random_threshold(rng):
+    r = rng.random()
+    if r < 0.10:
+        # a few 1e-5 next to the 4-decimal rounding of an attainable score (more than 4 decimals)
+        q = rng.randint(2, 12)
+        v = round(rng.randint(1, q) / float(q), 4) + rng.choice([1e-5, 2e-5, 4e-5, -1e-5, -4e-5, 5e-5])
+        return max(1e-6, min(1.0, v))
     r = rng.random()
     if r < 0.35:
         return rng.randint(1, 100) / 100.0
@@ -165,10 +178,15 @@ def random_tokenizer(rng, qgram_only=False, allow_bag=True):
 def _vocab(rng, size, unicode_rate=0.1):
     out = []
     for i in range(size):
-        if rng.random() < unicode_rate:
+        r = rng.random()
+        if r < unicode_rate:
             out.append(rng.choice(UNI) + str(i))
+        elif r < unicode_rate + 0.12 and out:
+            # a token that differs from an earlier one only by letter case (distinct tokens!)
+            w = rng.choice(out)
+            out.append(w.upper() if w.upper() != w else w.lower())
         else:
-            out.append(''.join(rng.choice('abcdefgh') for _ in range(rng.randint(1, 3))) + str(i))
+            out.append(''.join(rng.choice('abcdefghAB') for _ in range(rng.randint(1, 3))) + str(i))
     return out
 
 
@@ -202,6 +220,8 @@ def random_value(rng, tok, vocab, zipf, max_tokens):
                 w = w + 'qwrtzpl'[idx % 7] * (1 + idx // 7 % 3)
             elif kind == 'alnum':
                 w = ''.join(c for c in w if c.isalnum() and ord(c) < 128) or 'z9'
+            if kind == 'delim' and ' ' not in seps and rng.random() < 0.15:
+                w = w + ' ' + rng.choice(vocab)          # one token containing a space
             toks.append(w)
         s = toks[0]
         for w in toks[1:]:
@@ -217,7 +237,7 @@ def random_value(rng, tok, vocab, zipf, max_tokens):
         return ''
     if r < 0.14 and not tok.get('padding', True):
         return ''.join(rng.choice('ab') for _ in range(rng.randint(1, max(1, q - 1))))  # < q chars
-    alpha = rng.choice(['ab', 'abc', 'abcde', 'ab#$', 'abé日'])
+    alpha = rng.choice(['ab', 'abc', 'abcde', 'ab#$', 'abé日', 'aAbB', 'ab '])
     n = rng.randint(1, max(2, max_tokens))
     return ''.join(rng.choice(alpha) for _ in range(n))
 
@@ -231,7 +251,7 @@ def random_table_pair(rng, tok=None, max_rows=12, missing=0.1, dup_rate=0.2, ext
     out = []
     lcols_extra = ['lx_int', 'lx_str', 'lx_flt'] if extras else []
     rcols_extra = ['rx_str', 'rx_flt', 'rx_bool'] if extras else []
-    key_kind = key_kind or rng.choice(['int', 'int_shuffled', 'str', 'int_sparse', 'numstr', 'float', 'neg'])
+    key_kind = key_kind or rng.choice(['int', 'int_shuffled', 'str', 'int_sparse', 'numstr', 'float', 'neg', 'mixed'])
     pool_vals = [random_value(rng, tok, vocab, zipf, max_tokens) for _ in range(6)]
     for side, extra in (('l', lcols_extra), ('r', rcols_extra)):
         n = rng.choice([0, 1, 1, 2, 3, 5, 8, max_rows]) if rng.random() < 0.5 else \
@@ -258,6 +278,9 @@ def random_table_pair(rng, tok=None, max_rows=12, missing=0.1, dup_rate=0.2, ext
             keys = rng.sample(pool, n) if n <= len(pool) else ['%03d' % k for k in range(n)]
         elif key_kind == 'float':
             keys = [k + 0.5 for k in rng.sample(range(-20, 200), n)]
+        elif key_kind == 'mixed':       # ints and the strings that spell them are different keys
+            pool = list(range(8)) + [str(k) for k in range(8)]
+            keys = rng.sample(pool, n) if n <= len(pool) else list(range(n))
         elif key_kind == 'neg':
             keys = [-k for k in rng.sample(range(1, 10 ** 6), n)]
         else:
